@@ -15,7 +15,7 @@ namespace Glom.C20
 /-- the shared-state invariant: every cached entry equals a fresh parse / a fresh lookup -/
 def Inv (reg : Reg) (sh : Sh) : Prop :=
   (∀ e ∈ sh.pathCache, e.2 = create e.1) ∧
-  (∀ e ∈ sh.typeCache, reg e.1 = some e.2)
+  (∀ e ∈ sh.typeCache, reg e.1 = e.2)
 
 /-- what was observed of `n` calls run under one schedule -/
 structure Obs where
@@ -43,7 +43,7 @@ def reprPath (p : PathV) : String := "Path(" ++ ", ".intercalate p ++ ")"
 def observe (reg : Reg) (s : Sys) : Obs :=
   { outs := s.threads.filterMap Prog.outcome?
     pcache := s.sh.pathCache.map fun e => (e.1, reprPath e.2, reprPath (create e.1))
-    tcache := s.sh.typeCache.map fun e => (e.1, e.2, (reg e.1).getD "False")
+    tcache := s.sh.typeCache.map fun e => (e.1, e.2.getD "False", (reg e.1).getD "False")
     deadlock := s.threads.any fun p => match p with | .done _ => false | _ => true
     specSame := true }   -- an evaluation (`Ev`) is a value: in this model a spec is not state at all
 
@@ -75,8 +75,9 @@ def expectedFromText : List String :=
    "cache[text] = create()", "return cache[text]"]
 
 def expectedGetHandler : List String :=
-  ["if cache_key not in self._type_cache", "raise UnregisteredTarget",
-   "self._type_cache[cache_key] = ret", "return self._type_cache[cache_key]"]
+  ["if cache_key not in self._type_cache", "if ret is False and raise_exc", "raise UnregisteredTarget",
+   "self._type_cache[cache_key] = ret", "ret = self._type_cache[cache_key]", "if ret is False and raise_exc",
+   "raise UnregisteredTarget", "return ret"]
 
 /-- the keys a re-entrant evaluation resets (`resets`) cover the per-call error bookkeeping:
     every key the exception handler of `_glom` writes or tests and the parent link are dropped or
